@@ -166,3 +166,36 @@ Theorem C02_phase_at_most_once : forall c ks p,
   1 <= p <= 4 -> (tp_count_phase p (st_trace (tp_run c ks)) <= 1)%nat.
 Proof. exact phase_at_most_once_holds. Qed.
 Print Assumptions C02_phase_at_most_once.
+
+(* every rule of the request and response phases is evaluated at most once, for EVERY order of
+   calls (rule ids are unique, as the parser enforces) *)
+Theorem C02_rule_at_most_once : forall c ks r,
+  NoDup (map r_id (c_rules c)) -> In r (c_rules c) -> 1 <= r_phase r <= 4 ->
+  (tp_count_rule (r_id r) (st_trace (tp_run c ks)) <= 1)%nat.
+Proof. intros c ks r H. exact (rule_at_most_once_holds c H ks r). Qed.
+Print Assumptions C02_rule_at_most_once.
+
+(* ---- "by phase, then configuration order" ---- *)
+
+(* the history of every call list is ordered by phase: an evaluation of phase p1 that precedes one
+   of phase p2 has p1 <= p2 *)
+Theorem C02_phase_order : forall c ks t1 e1 t2 e2 t3 p1 p2,
+  st_trace (tp_run c ks) = t1 ++ e1 :: t2 ++ e2 :: t3 ->
+  tp_ev_phase e1 = Some p1 -> tp_ev_phase e2 = Some p2 -> p1 <= p2.
+Proof. exact phase_order_holds. Qed.
+Print Assumptions C02_phase_order.
+
+(* one Eval, any state, any rule set (allow and ctl included): the rules evaluated are a prefix, in
+   configuration order and without gaps, of the rules of that phase *)
+Theorem C02_eval_prefix : forall c p s,
+  exists evs, st_trace (tp_eval_phase c p s) = st_trace s ++ EvPhase p :: evs /\
+    Forall2 (is_rule_event p) evs (firstn (length evs) (tp_phase_rules c p)).
+Proof. exact eval_phase_prefix_holds. Qed.
+Print Assumptions C02_eval_prefix.
+
+(* every evaluated rule is a rule of the configuration, evaluated in its own phase *)
+Theorem C02_rules_in_config : forall c ks,
+  Forall (fun e => match e with EvRule p r _ => In r (c_rules c) /\ r_phase r = p | _ => True end)
+         (st_trace (tp_run c ks)).
+Proof. exact rules_in_config_holds. Qed.
+Print Assumptions C02_rules_in_config.
